@@ -356,8 +356,9 @@ Definition rec_beta (c : prf_cfg) (b : mcbatch) : nd :=
 
 Local Open Scope Qc_scope.
 Definition rec1 (t l : Qc) : xq := nan_to_zero (qdivx t l).
-(* _recall_compute; a row is (labels, (predictions, tp)).  average="weighted" indexes the ALREADY
-   MASKED num_labels with the full-size mask: IndexError as soon as one class is masked out *)
+(* _recall_compute; a row is (labels, (predictions, tp)).  average="weighted": num_labels has already been
+   restricted to the kept classes, weights = num_labels / num_labels.sum()  (repo fix df6abea; before it the
+   masked tensor was indexed with the full-size mask and raised IndexError when a class was absent) *)
 Definition rec_gamma (c : prf_cfg) (s : nd) : res :=
   match fst c with
   | Micro => RS (rec1 (fsc 2 s) (fsc 0 s))
@@ -369,9 +370,7 @@ Definition rec_gamma (c : prf_cfg) (s : nd) : res :=
       let rc := map (fun r => rec1 (snd (snd r)) (fst r)) kept in
       match a with
       | Macro => RS (xmean rc)
-      | _ => if forallb mask rows
-             then RS (xsum (map2 xmul rc (map (fun r => qdivx (fst r) (qsum (map fst kept))) kept)))
-             else RErr "IndexError"
+      | _ => RS (xsum (map2 xmul rc (map (fun r => qdivx (fst r) (qsum (map fst kept))) kept)))
       end
   end.
 Local Close Scope Qc_scope.
@@ -452,8 +451,8 @@ Defined.
 (* ------------------------------------------------------------------------------------------ *)
 Inductive cmnorm := NNone | NAll | NPred | NTrue.
 Definition cm_cfg := (nat * cmnorm)%type.
-(* _confusion_matrix_update_input_check uses torch.max: raises on empty tensors; negative labels are
-   not checked by the code (known defect of another property) -- they are outside [valid] here *)
+(* _confusion_matrix_update_input_check: torch.max / torch.min raise on empty tensors; class indices of
+   `target` and of a 1-D `input` must lie in [0, num_classes) (negative ones rejected since repo fix 9d92fa8) *)
 Definition cm_valid (c : cm_cfg) (b : mcbatch) : bool :=
   mc_shape_ok (Some (fst c)) b && Nat.leb 1 (List.length (snd b)) &&
   forallb (inrange (fst c)) (snd b) && forallb (inrange (fst c)) (preds (fst b)).
